@@ -121,6 +121,7 @@ impl CCase {
             "force": self.spec.force,
             "preexisting": self.spec.preexisting,
             "stale_temp": self.spec.stale_temp,
+            "unreadable_metadata": self.spec.unreadable_metadata.as_ref().map(|(k, kind)| json!([k, kind])),
             "writer": self.writer.name(),
             "meta_values": self.spec.metadata_values,
             "meta_files": self.spec.metadata_files.iter().map(|(k, v)| (k.clone(), hex(v))).collect::<Vec<_>>(),
@@ -145,6 +146,7 @@ impl CCase {
         spec.force = v["force"].as_bool().unwrap_or(false);
         spec.preexisting = v["preexisting"].as_u64().map(|x| x as usize);
         spec.stale_temp = v["stale_temp"].as_u64().map(|x| x as usize);
+        spec.unreadable_metadata = v["unreadable_metadata"].as_array().map(|a| (a[0].as_str().unwrap_or("").to_string(), a[1].as_u64().unwrap_or(0) as u8));
         spec.metadata_values = v["meta_values"]
             .as_array()
             .map(|a| {
